@@ -395,7 +395,7 @@ class ConstraintDeclarationShort(Nonterm):
         _, _, name, on_expr, extending = kids
         self.val = qlast.CreateConstraint(
             name=name.val,
-            subject=on_expr.val,
+            subjectexpr=on_expr.val,
             bases=extending.val,
         )
 
@@ -406,7 +406,7 @@ class ConstraintDeclarationShort(Nonterm):
         self.val = qlast.CreateConstraint(
             name=name.val,
             params=args.val,
-            subject=on_expr.val,
+            subjectexpr=on_expr.val,
             bases=extending.val,
         )
 
